@@ -69,6 +69,8 @@ def h_value(ex):
     N = ex.case['N']
     fr = ex.case['force_real']
     vt = ex.case['vt']
+    vt_in = vt                                   # the spelling handed to Signal
+    vt = {1: 'voltage', 2: 'field'}.get(vt, vt)  # integer spellings of the two accepted types
     use_d, use_p = ex.case['use']
     xs = ex.reals('x', N, -1, 1)
     ys = ex.reals('y', N, -1, 1)
@@ -81,7 +83,7 @@ def h_value(ex):
                        efficiency=eff, noisy=False)
     d = (0.0, 3.0, -4.0) if use_d else None
     pol = (1.0, 2.0, 2.0) if use_p else None
-    sig = mk_signal(ex, xs, vt)
+    sig = mk_signal(ex, xs, vt_in)
     if vt not in ('voltage', 'field'):
         ex.raises(lambda: ant.apply_response(sig, direction=d, polarization=pol, force_real=fr),
                   (ValueError,), 'other-value-types-refused')
@@ -119,7 +121,7 @@ def h_value(ex):
 FRAMES = {
     'std': ((0.0, 0.0, 1.0), (1.0, 0.0, 0.0)),
     'tilt': ((0.0, 0.6, 0.8), (1.0, 0.0, 0.0)),
-    'skew': ((2 / 3, -1 / 3, 2 / 3), (1 / 3, 2 / 3, 0.0)),
+    'skew': ((2 / 3, -1 / 3, 2 / 3), (2 / 3, 2 / 3, -1 / 3)),      # orthonormal pair
 }
 DIRS = {'a': (2.0, -1.0, 2.0), 'b': (0.0, 3.0, -4.0), 'c': (1.0, 0.0, 0.0), 'along': (0.0, 0.6, 0.8)}
 
